@@ -314,7 +314,7 @@ void onePutSequence(const std::vector<int> &puts, int maxGets, bool thorough)
     }
     for (size_t mi = 0; mi < mutants.size(); ++mi) {
         ++nMutants;
-        const int limit = thorough ? 4 : 3;
+        const int limit = 3;
         const bool typeMutant = mutants[mi].type != MsgType;
         if (typeMutant || (int)matching.size() > limit || matching.empty())
             if (!receiveAndGet(mutants[mi], MsgType, matching, "mutant " + names[mi])) return;
@@ -364,15 +364,20 @@ void body(V::Ctx &ctx)
     const int maxPuts = ctx.quick() ? 3 : 4;
     const int maxGets = ctx.quick() ? 4 : 5;
     fdCases();
-    std::vector<int> idx;
+    // sequences of up to 3 puts use all 14 items; the 4-put sequences of the thorough tier use 8 of them
+    const std::vector<int> all = {0, 1, 2, 3, 4, 5, 6, 7, 8, 9, 10, 11, 12, 13};
+    const std::vector<int> reduced = {1, 3, 4, 7, 8, 10, 11, 13};      // i1 i-1 i4096 pod16 s0 s5 s4092 f8
+    std::vector<int> pos;
     for (int len = 0; len <= maxPuts; ++len) {
-        idx.assign(len, 0);
+        const std::vector<int> &items = len <= 3 ? all : reduced;
+        pos.assign(len, 0);
         for (;;) {
+            std::vector<int> idx;
             std::string desc = "puts:";
-            for (int i : idx) { desc += ' '; desc += PutKinds[i].name; }
+            for (int i : pos) { idx.push_back(items[i]); desc += ' '; desc += PutKinds[items[i]].name; }
             if (V::begin_case(desc)) { onePutSequence(idx, maxGets, ctx.thorough()); V::end_case(); }
             int k = len - 1;
-            while (k >= 0 && ++idx[k] == NPut) { idx[k] = 0; --k; }
+            while (k >= 0 && ++pos[k] == (int)items.size()) { pos[k] = 0; --k; }
             if (k < 0) break;
         }
     }
